@@ -71,6 +71,9 @@ struct VarInfo {
     name: String,
     ty: Ty,
     assignable: bool,
+    /// false for an un-annotated numeric `let`: its type may still be an unresolved
+    /// `{integer}` / `{float}` where it is used, so it cannot be a method receiver
+    concrete: bool,
 }
 
 /// How much the context tells the type checker about the expected type.
@@ -299,7 +302,11 @@ impl<'c> Gen<'c> {
     }
 
     fn bind(&mut self, name: &str, ty: Ty, assignable: bool) {
-        self.scopes.last_mut().unwrap().push(VarInfo { name: name.into(), ty, assignable });
+        self.scopes.last_mut().unwrap().push(VarInfo { name: name.into(), ty, assignable, concrete: true });
+    }
+
+    fn bind_loose(&mut self, name: &str, ty: Ty) {
+        self.scopes.last_mut().unwrap().push(VarInfo { name: name.into(), ty, assignable: true, concrete: false });
     }
 
     fn vars_of(&self, ty: &Ty) -> Vec<String> {
@@ -330,9 +337,16 @@ impl<'c> Gen<'c> {
 
     /// places (var + field path) of a given type reachable through record fields
     fn places_of(&self, ty: &Ty, assignable_only: bool) -> Vec<Place> {
+        self.places_of_x(ty, assignable_only, false)
+    }
+
+    fn places_of_x(&self, ty: &Ty, assignable_only: bool, concrete_only: bool) -> Vec<Place> {
         let mut out = Vec::new();
         for v in self.all_vars() {
             if assignable_only && !v.assignable {
+                continue;
+            }
+            if concrete_only && !v.concrete {
                 continue;
             }
             self.collect_places(&v.ty, Place { var: v.name.clone(), fields: vec![] }, ty, 3, &mut out);
@@ -608,7 +622,7 @@ impl<'c> Gen<'c> {
         let k = self.c.below(10);
         // variables / places
         if k >= 3 {
-            let ps = self.places_of(ty, false);
+            let ps = self.places_of_x(ty, false, fix == Fix::Exact);
             if !ps.is_empty() {
                 let p = ps[self.c.below(ps.len())].clone();
                 return Self::place_expr(&p);
@@ -1314,7 +1328,11 @@ impl<'c> Gen<'c> {
         let self_typed = matches!(t, Ty::Int(_) | Ty::F32 | Ty::F64 | Ty::Bool | Ty::Char | Ty::Str);
         let annotate = !(self_typed && self.c.chance(90));
         let e = self.expr(&t, d, if annotate { Fix::Direct } else { Fix::No });
-        self.bind(&name, t.clone(), true);
+        if !annotate && matches!(t, Ty::Int(_) | Ty::F32 | Ty::F64) {
+            self.bind_loose(&name, t.clone());
+        } else {
+            self.bind(&name, t.clone(), true);
+        }
         Stmt::Let(name, if annotate { Some(t) } else { None }, e)
     }
 
